@@ -3,13 +3,17 @@ package main
 // twin: C01. Every behaviour (with the crash points TLC chose) is executed on three real replicas:
 //   A  MemDB, in-process, never interrupted (crash-free projection of the behaviour)
 //   B  goleveldb in a scratch directory, crashed/restarted where the behaviour says, with CheckTx
-//      calls and queries interleaved between its DeliverTx calls
-//   C  separate OS process, GOMAXPROCS=1, started >= 1.1 s later, MemDB
+//      calls and queries interleaved between its DeliverTx calls; every transaction is offered to Simulate and to
+//      CheckTx before it is delivered (a node that saw the transaction in its mempool and served a gas estimate)
+//   C  separate OS process, GOMAXPROCS=1, started >= 1.1 s later, MemDB, with another node-local configuration:
+//      genesis invariants not asserted (--x-crisis-skip-assert-invariants), every invariant asserted in every block
+//      (--inv-check-period 1)
 // B's recording carries A's and C's app hash / tx results next to its own so that the verdict is
 // computed by TLC (Trace.tla monitors ReplicasAgree / RestartResumesCommitted).
 
 import (
 	"bufio"
+	"bytes"
 	"encoding/hex"
 	"encoding/json"
 	"flag"
@@ -59,7 +63,7 @@ func crashFree(b []M) []M {
 }
 
 // runRef executes a crash-free behaviour and returns hashes and raw tx results.
-func runRef(b []M, db string) (*RefRun, error) {
+func runRef(b []M, db string, local M) (*RefRun, error) {
 	ref := &RefRun{Hash: map[int64]string{}, Tx: map[string]TxRaw{}}
 	r := NewRunner(nil)
 	r.NoProj = true
@@ -68,8 +72,19 @@ func runRef(b []M, db string) (*RefRun, error) {
 		ev = roundTrip(ev)
 		if mStr(ev, "a") == "InitChain" && db != "" {
 			g := mMap(ev, "g")
+			if g == nil && len(local) > 0 {
+				bz, _ := json.Marshal(DefaultGenSpec())
+				g = M{}
+				dec := json.NewDecoder(bytes.NewReader(bz))
+				dec.UseNumber()
+				dec.Decode(&g)
+				ev["g"] = g
+			}
 			if g != nil {
 				g["db"] = db
+				for k, v := range local {
+					g[k] = v
+				}
 			}
 		}
 		if err := r.Step(ev); err != nil {
@@ -114,7 +129,7 @@ func cmdReplica(fs *flag.FlagSet, in, out string, seed int64) error {
 				}
 			}
 		}
-		ref, err := runRef(b, "mem")
+		ref, err := runRef(b, "mem", M{"skipInv": true, "invPeriod": 1})
 		if err != nil {
 			return fmt.Errorf("behaviour %d: %w", i, err)
 		}
@@ -137,7 +152,7 @@ func cmdTwin(fs *flag.FlagSet, in, out string, seed int64) error {
 	// replica A in-process
 	refA := make([]*RefRun, len(behaviours))
 	for i := range behaviours {
-		ref, err := runRef(free[i], "mem")
+		ref, err := runRef(free[i], "mem", nil)
 		if err != nil {
 			return fmt.Errorf("replica A, behaviour %d: %w", i, err)
 		}
@@ -175,6 +190,7 @@ func cmdTwin(fs *flag.FlagSet, in, out string, seed int64) error {
 	bw := bufio.NewWriterSize(f, 1<<20)
 	defer bw.Flush()
 	r := NewRunner(bw)
+	r.PreCheck = true
 	for i, b := range behaviours {
 		r.Annot = func(ev M, res J) {
 			w := r.W
